@@ -127,9 +127,6 @@ def integ_order(check, proj):
         name = c.name
         stepf = proj.resolve(c, "step")
         loc = stepf.loc() if stepf else c.loc()
-        if name not in rk.NOMINAL_ORDER:
-            check.undecided("INTEG-ORDER", c.qualname, "integrator class unknown to the checker's table", loc)
-            continue
         try:
             ai, outs = run_step(proj, c)
             T = rk.extract(outs[0], name)
@@ -139,6 +136,15 @@ def integ_order(check, proj):
         probs = [t for r, t in T.problems if rk.problem_kind(r, t) == "update"]     # stage times and local steps do not enter an autonomous problem with one global step
         if probs:
             check.violation("INTEG-ORDER", c.qualname, probs[0], loc, key="tableau")
+            continue
+        if name not in rk.NOMINAL_ORDER:
+            # a class the statement does not name (added since): no nominal order to hold it to; it must at least be
+            # a consistent Runge-Kutta method, and its own order is reported
+            p = rk.achieved_order(T.A, T.b)
+            if p >= 1:
+                check.ok("INTEG-ORDER", c.qualname, "class not named by the statement: its tableau is a Runge-Kutta method of order %d%s" % (p, "" if p < 4 else " (at least)"), loc, nontrivial=False)
+            else:
+                check.violation("INTEG-ORDER", c.qualname, "class not named by the statement, and its tableau is not even consistent (weights do not sum to one)", loc, key="inconsistent")
             continue
         order = rk.NOMINAL_ORDER[name]
         bad = [(cn, lhs) for cn, lhs, rhs in rk.order_conditions(T.A, T.b, order) if lhs != rhs]
